@@ -316,9 +316,11 @@ def signature(clause: str, c: Case, ev: dict) -> dict:
     sig = {'clause': clause, 'type_kind': tkind(c.T), 'value_kind': vkind(c.v, c.T)}
     if ev.get('op') == 'render' and 'rtree' in ev:
         sig['shape'] = tree_shape(ev['rtree'])
-        lay = _tagged_layout(c.T)
-        if lay:
-            sig['tagged'] = lay
+    lay = _tagged_layout(c.T)
+    if lay:
+        sig['tagged'] = lay
+    if c.T['k'] in ('dict', 'defaultdict', 'ordereddict', 'counter') and _contains_kind(c.T['kt'], ('set', 'frozenset')):
+        sig['key_contains_set'] = 'T'
     if c.T['k'] == 'cls':
         sig['features'] = cls_features(c.T)
         sig['value_features'] = cls_value_features(c.T, c.v)
@@ -841,6 +843,10 @@ def tree_shape(rt: dict, depth: int = 2) -> str:
     if k == 'sum':
         return 'sum[' + ','.join(tree_shape(c, depth - 1) for c in rt['ch']) + ']'
     return str(k)
+
+
+def _contains_kind(T: dict, kinds) -> bool:
+    return T['k'] in kinds or any(_contains_kind(x, kinds) for x in type_children(T))
 
 
 def _tagged_layout(T: dict):
